@@ -711,6 +711,8 @@ var _ rpc.Resources
 // the state at its version - invariant kept by setModel/setCollection and processEvent)
 //@   assumes predSnapCurrent(s)
 //@   ensures[C01] predSnapCurrent(s)
+// (the client no longer holds the resource: its events are held until it is handed over again)
+//@   ensures[C02,C03] s.queueFlag & queueReasonLoading != 0
 //@   assumes forall a string :: has(s.refs, a) ==> s.refs[a] != nil && s.refs[a].sub != nil
 //@   assumes forall a, b string :: has(s.refs, a) && has(s.refs, b) && a != b ==> s.refs[a].sub != s.refs[b].sub
 //@   ensures[C02] s.state == stateReady && s.indirectsent == 0
